@@ -527,6 +527,62 @@ theorem stepFinb_iff {s : TState} {st : MStep} (hst : ∀ cfg', st ≠ .reconfig
     exact ⟨fun h hne => h.resolve_left hne, fun h => (Classical.em (ms = [])).imp_right h⟩
   | reconfig cfg' => exact absurd rfl (hst cfg')
 
+theorem rcFinb_iff {s : TState} {cfg' : Config} :
+    rcFinb u s cfg' = true ↔ ∀ x ∈ s.cfg.items,
+      (s.dyn.loaded x.id = true → ∃ y ∈ cfg'.items, y.id = x.id) ∧
+      ∀ e ∈ effsOf u x, (s.dyn.on x.id e = true ∨ s.dyn.tgts x.id e ≠ [] ∨ s.dyn.bspecs x.id e ≠ []) →
+        Named u cfg' x.id e := by
+  unfold rcFinb
+  simp only [List.all_eq_true, Bool.and_eq_true, Bool.or_eq_true, Bool.not_eq_true', List.any_eq_true,
+    beq_iff_eq, List.isEmpty_iff, namedb_iff]
+  constructor
+  · intro h x hx
+    obtain ⟨h1, h2⟩ := h x hx
+    refine ⟨fun hl => h1.resolve_left (by rw [hl]; exact Bool.noConfusion), fun e he hc => ?_⟩
+    rcases h2 e he with ⟨⟨ho, ht⟩, hb⟩ | hn
+    · rcases hc with hc | hc | hc
+      · rw [ho] at hc; cases hc
+      · exact absurd ht hc
+      · exact absurd hb hc
+    · exact hn
+  · intro h x hx
+    obtain ⟨h1, h2⟩ := h x hx
+    refine ⟨?_, fun e he => ?_⟩
+    · cases hl : s.dyn.loaded x.id with
+      | false => exact Or.inl rfl
+      | true => exact Or.inr (h1 hl)
+    · by_cases hc : s.dyn.on x.id e = true ∨ s.dyn.tgts x.id e ≠ [] ∨ s.dyn.bspecs x.id e ≠ []
+      · exact Or.inr (h2 e he hc)
+      · refine Or.inl ⟨⟨?_, ?_⟩, ?_⟩
+        · cases ho : s.dyn.on x.id e with
+          | false => rfl
+          | true => exact absurd (Or.inl ho) hc
+        · exact Classical.byContradiction fun ht => hc (Or.inr (Or.inl ht))
+        · exact Classical.byContradiction fun hb => hc (Or.inr (Or.inr hb))
+
+/-- **The executable `RC` check is sound**: registers of the form `DynFin` for the old configuration that pass
+`rcFinb` are of that form for the new one (the `reconfig` clause of `StepFin`). -/
+theorem rcFinb_sound {s : TState} (hfin : DynFin u s.cfg s.dyn) {cfg' : Config} (h : rcFinb u s cfg' = true) :
+    DynFin u cfg' s.dyn := by
+  have h' := rcFinb_iff.1 h
+  refine ⟨fun i hi => ?_, fun i e hi => ?_, fun i e hi => ?_, fun i e hi => ?_⟩
+  · obtain ⟨x, hx, rfl⟩ := hfin.loaded i hi
+    exact (h' x hx).1 hi
+  · obtain ⟨x, hx, rfl, he⟩ := hfin.on i e hi
+    exact (h' x hx).2 e he (Or.inl hi)
+  · obtain ⟨x, hx, rfl, he⟩ := hfin.tgts i e hi
+    exact (h' x hx).2 e he (Or.inr (Or.inl hi))
+  · obtain ⟨x, hx, rfl, he⟩ := hfin.bspecs i e hi
+    exact (h' x hx).2 e he (Or.inr (Or.inr hi))
+
+/-- ... and complete (no hypothesis on the old configuration). -/
+theorem rcFinb_complete {s : TState} {cfg' : Config} (h : DynFin u cfg' s.dyn) : rcFinb u s cfg' = true :=
+  rcFinb_iff.2 fun x _ => ⟨fun hl => h.loaded x.id hl, fun e _ hc => by
+    rcases hc with hc | hc | hc
+    · exact h.on x.id e hc
+    · exact h.tgts x.id e hc
+    · exact h.bspecs x.id e hc⟩
+
 /-- Whatever the registers, the re-packing does not change what the model computes from them for the
 configuration's items: loaded flags, running effects, recorded targets. -/
 theorem typeOf?_compactDyn {x : Item} (hx : x ∈ cfg.items) : typeOf? u (compactDyn u cfg d) x = typeOf? u d x := by
